@@ -1,6 +1,7 @@
 package props
 
 import (
+	"go/types"
 	"go/token"
 	"strings"
 
@@ -317,4 +318,54 @@ func gxAtLeast(isX func(ssa.Value) bool, k int64) core.Atom {
 		}
 		return false, false
 	}
+}
+
+// gxOptionReadsBeforeApplied: the functional-options idiom. In fn, an option application is a call
+// of a function VALUE (not a static callee) whose only argument is the address of a local struct
+// (or a pointer held in a local). Returns the loads of a field of such a struct that can still be
+// followed by an option application (a value derived before the options ran ignores them), and
+// the number of application sites found.
+func gxOptionReadsBeforeApplied(fn *ssa.Function) (early []ssa.Instruction, sites int) {
+	var apps []ssa.Instruction
+	cells := map[ssa.Value]bool{}
+	for _, b := range fn.Blocks {
+		for _, in := range b.Instrs {
+			c, ok := in.(*ssa.Call)
+			if !ok || c.Call.IsInvoke() || c.Call.StaticCallee() != nil || len(c.Call.Args) != 1 {
+				continue
+			}
+			if _, isBuiltin := c.Call.Value.(*ssa.Builtin); isBuiltin {
+				continue
+			}
+			a := c.Call.Args[0]
+			pt, isPtr := a.Type().Underlying().(*types.Pointer)
+			if !isPtr {
+				continue
+			}
+			if _, isStruct := pt.Elem().Underlying().(*types.Struct); !isStruct {
+				continue
+			}
+			apps = append(apps, in)
+			cells[core.Forward(a)] = true
+		}
+	}
+	if len(apps) == 0 {
+		return nil, 0
+	}
+	for _, b := range fn.Blocks {
+		for _, in := range b.Instrs {
+			u, ok := in.(*ssa.UnOp)
+			if !ok || u.Op != token.MUL {
+				continue
+			}
+			fa, ok := u.X.(*ssa.FieldAddr)
+			if !ok || !cells[core.Forward(fa.X)] {
+				continue
+			}
+			if _, again := core.Reach(core.Q{From: []core.At{core.After(in)}, Target: core.Is(apps...)}); again {
+				early = append(early, in)
+			}
+		}
+	}
+	return early, len(apps)
 }
